@@ -559,6 +559,7 @@ func (c *c01ctx) checkHandWritten() {
 		}
 		type finding struct{ elem, msg string; pos token.Pos }
 		found := map[string]finding{}
+		helper := ""
 		report := func(elem string, pos token.Pos, f string, a ...any) {
 			k := elem + "|" + fmt.Sprintf(f, a...)
 			if _, ok := found[k]; !ok {
@@ -599,6 +600,9 @@ func (c *c01ctx) checkHandWritten() {
 					continue
 				case DNext:
 					report("Next", ev.Pos, "a success path skips an element with d.Next() without storing it")
+					continue
+				case DHelper:
+					helper = ev.Method
 					continue
 				}
 				if ev.Tag == -1 {
@@ -641,6 +645,10 @@ func (c *c01ctx) checkHandWritten() {
 				last := dp.blocks[len(dp.blocks)-1]
 				justify(enc[k], last.Instrs[len(last.Instrs)-1].Pos(), true)
 			}
+		}
+		if helper != "" {
+			r.Unk("C01.P4", key, fn.Pos(), "the decoder hands its *ttlv.Decoder to the helper %s, whose reads this rule does not follow: the element sequence cannot be compared (inline the helper's reads or extend the rule)", helper)
+			continue
 		}
 		// one obligation per encoder element (+ extras)
 		byElem := map[string][]finding{}
